@@ -926,6 +926,38 @@ pub fn gen_shapes(asm: &Asm, mach: &mut Mach, rng: &mut Rng, sh: &mut Shards, pa
             }
         }
     }
+    // string definitions with every kind of character between the quotes (control characters, TAB, DEL, non-ASCII,
+    // a backslash, an apostrophe, a quote): the assembler may refuse such a string, but a string it accepts must be
+    // taken by the data loader as well, and the bytes loaded must be the bytes written
+    let specials: Vec<String> = (1u8..32).filter(|c| *c != 10 && *c != 13).map(|c| (c as char).to_string())
+        .chain(["\u{7f}", "\\", "'", "\"", "`", "\u{e9}", "\u{20ac}", "\u{a0}", "\r", "%", "{", "}", "<-", "->", ":", ","].iter().map(|s| s.to_string())).collect();
+    for sp in &specials {
+        for dir in ["db", "dw", "DB", "DW"] {
+            for shape in 0..3 {
+                let content = match shape { 0 => format!("a{}b", sp), 1 => sp.to_string(), _ => format!("{}xy{}", sp, sp) };
+                let src = format!("vdat: {} \"{}\"\nstart:\nnop\n", dir, content);
+                let r = std::panic::catch_unwind(std::panic::AssertUnwindSafe(|| asm.assemble(&src)));
+                match r {
+                    Ok(Ok(a)) => {
+                        let mut vm = emulator_8086_lib::VM::new();
+                        match load_data(&mut vm, &a.out.data) {
+                            Err(e) => sh.unit(&[json!({"ev":"downstream","kind":"data","src":src,"err":e,"lines":a.out.data})]),
+                            Ok(_) => {
+                                let want: Vec<u8> = if dir.eq_ignore_ascii_case("db") { content.bytes().collect() } else { content.bytes().flat_map(|b| [b, 0u8]).collect() };
+                                let got: Vec<u8> = vm.mem[..want.len()].to_vec();
+                                if got != want {
+                                    sh.unit(&[json!({"ev":"downstream","kind":"data","src":src,"err":format!("bytes loaded {:?}, bytes written {:?}", got, want),"lines":a.out.data})]);
+                                }
+                            }
+                        }
+                        sh.count("string-content-accepted", 1);
+                    }
+                    Ok(Err(_)) => sh.count("string-content-refused", 1),
+                    Err(_) => sh.unit(&[json!({"ev":"downstream","kind":"data","src":src,"err":"PANIC in the assembler","lines":[]})]),
+                }
+            }
+        }
+    }
 }
 
 // ---------------------------------------------------------------------------------------------
